@@ -33,13 +33,29 @@ def eq_label(test, a, b):
 
 
 def raising_edge(cx, t, label, exc, P):
-    """the edge (t, label) leads to an unconditional raise of `exc` (only plain statements in between)"""
-    r = reach_from_succ(cx.cfg, t, label, follow_exc=False)
-    byid = {n.id: n for n in cx.cfg.nodes}
-    nodes = [byid[i] for i in r]
-    if not nodes:
+    """the edge (t, label) leads to an unconditional raise of `exc`: only plain statements in between, and tests whose outcome is fixed
+    by a boolean the path itself has just set (the `ret = False .. if not ret: raise` of an expanded predicate helper)"""
+    from .common import explore
+    succ = [m for (m, l) in t.succ if l == label]
+    if not succ:
         return False
-    if any(n.kind in ('test', 'for', 'exit', 'falloff', 'return', 'with') or (n.kind == 'stmt' and n.ast is None) for n in nodes):
+    byid = {n.id: n for n in cx.cfg.nodes}
+    forks = []
+
+    def no_atoms(e):
+        return None
+    # follow the boolean locals: a test that still forks is a condition
+    r = set()
+    for s0 in succ:
+        r |= explore(cx, no_atoms, start=s0)
+    nodes = [byid[i] for i in r]
+    for n in nodes:
+        if n.kind == 'test':
+            outs = {l for (m, l) in n.succ if l != 'exc' and m.id in r}
+            if len(outs) > 1:
+                return False        # a genuine condition between the guard and the raise
+    if any(n.kind in ('for', 'exit', 'falloff', 'return', 'with') or (n.kind == 'stmt' and n.ast is None and getattr(n, 'label', '') != 'inline-exit'
+                                                                       and type(n.stmt).__name__ != 'InlineExit') for n in nodes):
         return False
     rs = [n for n in nodes if n.kind == 'raise']
     return bool(rs) and all(n.ast.exc is not None and P.exc_name(cx.f.mod, n.ast.exc) == exc for n in rs)
@@ -388,8 +404,53 @@ def merge_key_rule(R, oid):
                 if isinstance(b, list) and b and isinstance(b[0], ast.stmt):
                     yield b
 
+    # text pieces: every local whose value ends up in the key (`piece = ..; key += piece`, `parts.append(..); key += ''.join(parts)`, also
+    # through the result names of an expanded helper)
+    K = {key}
+    changed = True
+    while changed:
+        changed = False
+        for n in ast.walk(fn):
+            tgt = val = None
+            if isinstance(n, ast.AugAssign) and isinstance(n.target, ast.Name) and isinstance(n.op, ast.Add):
+                tgt, val = [n.target.id], n.value
+            elif isinstance(n, ast.Assign) and len(n.targets) == 1 and isinstance(n.targets[0], ast.Name):
+                tgt, val = [n.targets[0].id], n.value
+            elif isinstance(n, ast.Assign) and len(n.targets) == 1 and isinstance(n.targets[0], ast.Tuple) and isinstance(n.value, ast.Tuple) \
+                    and len(n.targets[0].elts) == len(n.value.elts):
+                for t_, v_ in zip(n.targets[0].elts, n.value.elts):
+                    if isinstance(t_, ast.Name) and t_.id in K:
+                        for x in ast.walk(v_):
+                            if isinstance(x, ast.Name) and x.id not in K and x.id not in ('opt', 'arg', 'cons', 'self', 'str', 'int'):
+                                K.add(x.id)
+                                changed = True
+                continue
+            elif isinstance(n, ast.Call) and isinstance(n.func, ast.Attribute) and n.func.attr == 'append' and isinstance(n.func.value, ast.Name) and len(n.args) == 1:
+                tgt, val = [n.func.value.id], n.args[0]
+            if tgt and tgt[0] in K:
+                for x in ast.walk(val):
+                    if isinstance(x, ast.Name) and isinstance(x.ctx, ast.Load) and x.id not in K and x.id not in ('opt', 'arg', 'cons', 'self', 'str', 'int', 'tag'):
+                        K.add(x.id)
+                        changed = True
+
+    def piece_value(s, k=None):
+        """the text added to a key piece by statement s (piece k if given), else None"""
+        if isinstance(s, ast.AugAssign) and isinstance(s.target, ast.Name) and s.target.id in K and isinstance(s.op, ast.Add) and (k is None or s.target.id == k):
+            return s.value
+        if isinstance(s, ast.Assign) and len(s.targets) == 1 and isinstance(s.targets[0], ast.Name) and s.targets[0].id in K and (k is None or s.targets[0].id == k):
+            return s.value
+        if isinstance(s, ast.Assign) and len(s.targets) == 1 and isinstance(s.targets[0], ast.Tuple) and isinstance(s.value, ast.Tuple) \
+                and len(s.targets[0].elts) == len(s.value.elts):
+            for t_, v_ in zip(s.targets[0].elts, s.value.elts):
+                if isinstance(t_, ast.Name) and t_.id in K and (k is None or t_.id == k):
+                    return v_
+        if isinstance(s, ast.Expr) and isinstance(s.value, ast.Call) and isinstance(s.value.func, ast.Attribute) and s.value.func.attr == 'append' \
+                and isinstance(s.value.func.value, ast.Name) and s.value.func.value.id in K and len(s.value.args) == 1 and (k is None or s.value.func.value.id == k):
+            return s.value.args[0]
+        return None
+
     def is_key_add(s):
-        return isinstance(s, ast.AugAssign) and isinstance(s.target, ast.Name) and s.target.id == key and isinstance(s.op, ast.Add)
+        return piece_value(s) is not None
     n_data = n_loops = 0
     for b in blocks(fn):
         for i, s in enumerate(b):
@@ -401,7 +462,7 @@ def merge_key_rule(R, oid):
                     continue
                 n_data += 1
                 inst = f'{cx.qual} :: `{norm(s)}` is part of the key'
-                adds = [t for t in b if is_key_add(t) and any(ast.unparse(x) in srcs for x in ast.walk(t.value))]
+                adds = [t for t in b if is_key_add(t) and any(ast.unparse(x) in srcs for x in ast.walk(piece_value(t)))]
                 if adds:
                     R.ok(oid, inst, site(cx, s))
                 else:
@@ -412,14 +473,55 @@ def merge_key_rule(R, oid):
                     isinstance(t, ast.Assign) and ast.unparse(t.targets[0]).startswith('encoded_') for t in ast.walk(s)):
                 n_loops += 1
                 inst = f'{cx.qual} :: items of `{ast.unparse(s.iter)}` are bracketed in the key'
-                before = [t for t in b[:i] if is_key_add(t)]
-                after = [t for t in b[i + 1:] if is_key_add(t)]
+                # the piece the loop body feeds
+                def own(stmts):
+                    for x in stmts:
+                        yield x
+                        if isinstance(x, ast.If):
+                            yield from own(x.body)
+                            yield from own(x.orelse)
+                        elif type(x).__name__ == 'InlineBlock':
+                            yield from own(x.body)
+                body_ = list(own(s.body))
+                reinit = {t.targets[0].id for t in body_ if isinstance(t, ast.Assign) and len(t.targets) == 1 and isinstance(t.targets[0], ast.Name)} | \
+                         {e_.id for t in body_ if isinstance(t, ast.Assign) and len(t.targets) == 1 and isinstance(t.targets[0], ast.Tuple)
+                          for e_ in t.targets[0].elts if isinstance(e_, ast.Name)}
+                # the accumulator the loop feeds: a key piece extended in the body (outside nested loops) and not started afresh there
+                lists = {t.value.func.value.id for t in body_ if isinstance(t, ast.Expr) and is_key_add(t)} - reinit
+                def strs(e):
+                    return [x.value for x in ast.walk(e) if isinstance(x, ast.Constant) and isinstance(x.value, str)]
+                if lists:
+                    # the items are collected in a list: where the list is joined into the key, the join stands between an opening and a closing delimiter
+                    lst = sorted(lists)[0]
+                    use = [(t, piece_value(t)) for t in b[i + 1:] if is_key_add(t) and any(isinstance(x, ast.Name) and x.id == lst for x in ast.walk(piece_value(t)))]
+                    opened = closed = False
+                    if use:
+                        v = use[0][1]
+                        parts = []
 
-                def last_const(t):
-                    cs = [x.value for x in ast.walk(t.value) if isinstance(x, ast.Constant) and isinstance(x.value, str)]
-                    return cs[-1] if cs else ''
-                opened = bool(before) and last_const(before[-1])[-1:] in '{(['
-                closed = bool(after) and isinstance(after[0].value, ast.Constant) and str(after[0].value.value)[:1] in '})]'
+                        def flat(x):
+                            if isinstance(x, ast.BinOp) and isinstance(x.op, ast.Add):
+                                flat(x.left)
+                                flat(x.right)
+                            elif isinstance(x, ast.JoinedStr):
+                                for y in x.values:
+                                    parts.append(y.value if isinstance(y, ast.FormattedValue) else y)
+                            else:
+                                parts.append(x)
+                        flat(v)
+                        j = [k_ for k_, x in enumerate(parts) if any(isinstance(y, ast.Name) and y.id == lst for y in ast.walk(x))]
+                        if len(j) == 1:
+                            k_ = j[0]
+                            opened = k_ > 0 and isinstance(parts[k_ - 1], ast.Constant) and str(parts[k_ - 1].value)[-1:] in ('{', '(', '[') and str(parts[k_ - 1].value) != ''
+                            closed = k_ + 1 < len(parts) and isinstance(parts[k_ + 1], ast.Constant) and str(parts[k_ + 1].value)[:1] in ('}', ')', ']') \
+                                and str(parts[k_ + 1].value) != ''
+                else:
+                    before = [t for t in b[:i] if is_key_add(t)]
+                    after = [t for t in b[i + 1:] if is_key_add(t)]
+                    lb = strs(piece_value(before[-1])) if before else []
+                    opened = bool(lb) and lb[-1][-1:] in ('{', '(', '[') and lb[-1] != ''
+                    closed = bool(after) and isinstance(piece_value(after[0]), ast.Constant) and str(piece_value(after[0]).value)[:1] in ('}', ')', ']') \
+                        and str(piece_value(after[0]).value) != ''
                 if opened and closed:
                     R.ok(oid, inst, site(cx, s))
                 else:
